@@ -148,9 +148,10 @@ def case_cov(B, cfg):
     B.eq_array('individual parameters = underlying(vartheta_i)', psi, psi_ref)
     # the caller keeps the array: a later evaluation at other parameters (and
     # other covariates) does not change what it holds
-    theta_o = [B.var('other%d' % k) for k in range(len(theta))]
-    cov_o = ps.arr(B, [[B.var('ochi%d_%d' % (i, c)) for c in range(n_cov)]
-                       for i in range(n_ids)])
+    # (population parameters shifted by one, same coefficients and
+    # covariates: stays inside the support, so no new case distinctions)
+    theta_o = [t + 1 for t in th0] + list(beta)
+    cov_o = cov
     try:
         m.compute_individual_parameters(
             ps.arr(B, theta_o), ps.arr(B, eta), covariates=cov_o)
